@@ -173,7 +173,8 @@ def judge(rep: Report, prop: str, verdicts: List[dict], case_by_id: Dict[str, di
         toks = case.get("toks", [])
         if mine and len(toks) >= 2 and any(t["op"] == "startproc" for t in toks):
             rep.nontrivial.add(core.case_hash(toks))
-            if len(rep.samples) < 4 and (len(toks) >= 3):
+            if len(rep.samples) < 4 and len(toks) >= 3 and any(
+                    t["op"] in ("escape", "remember_state", "restore", "nextoff") for t in toks[1:]):
                 rep.samples.append({"case": brief(case), "in_domain": mine,
                                     "exceptions": v.get("exc", [])})
         for fl in v["failed"]:
